@@ -39,6 +39,11 @@ def shapeSubsuper : Schema :=
   [mk "R4" 1 ["Id"] false true "" 0 ["Id"] false false "", mk "R4" 2 ["Id"] false true "" 0 ["Id"] false false ""]
 def shapeSharedRef : Schema :=
   [mk "R5" 0 ["X_Id"] true true "" 1 ["Id"] false true "", mk "R6" 0 ["X_Id"] false true "" 2 ["Id"] true true ""]
+/-- a non-reflexive association whose ends carry phrases -/
+def shapePhrased : Schema := [mk "R1" 0 ["B_Id"] true true "is owned by" 1 ["Id"] false true "owns"]
+/-- A.B_Id → B.Id → C.Id: a referential attribute that is the identifying attribute another class refers to -/
+def shapeRefIdChain : Schema :=
+  [mk "R8" 0 ["B_Id"] true true "" 1 ["Id"] false true "", mk "R9" 1 ["Id"] false true "" 2 ["Id"] false true ""]
 /-- a class with two reflexive associations carrying the same phrases (used by the C16 harness) -/
 def shapeTwoReflexive : Schema :=
   [mk "R2" 0 ["Next_Id"] false true "precedes" 0 ["Id"] false true "succeeds",
@@ -46,10 +51,12 @@ def shapeTwoReflexive : Schema :=
 
 theorem shapes_schemaOk :
     SchemaOk shapeOneOne ∧ SchemaOk shapeOneMany ∧ SchemaOk shapeManyOneUncond ∧ SchemaOk shapeReflexive ∧
-    SchemaOk shapeAssocClass ∧ SchemaOk shapeSubsuper ∧ SchemaOk shapeSharedRef ∧ SchemaOk shapeTwoReflexive :=
+    SchemaOk shapeAssocClass ∧ SchemaOk shapeSubsuper ∧ SchemaOk shapeSharedRef ∧ SchemaOk shapeTwoReflexive ∧
+    SchemaOk shapePhrased ∧ SchemaOk shapeRefIdChain :=
   ⟨schemaOk_of_check (by decide), schemaOk_of_check (by decide), schemaOk_of_check (by decide),
    schemaOk_of_check (by decide), schemaOk_of_check (by decide), schemaOk_of_check (by decide),
-   schemaOk_of_check (by decide), schemaOk_of_check (by decide)⟩
+   schemaOk_of_check (by decide), schemaOk_of_check (by decide), schemaOk_of_check (by decide),
+   schemaOk_of_check (by decide)⟩
 
 /-- a reflexive association whose two phrases are EQUAL is not `SchemaOk` (the link dict of the real code is
     keyed by (kind, rel, phrase): the two directions would collide) — the hypothesis is a real restriction -/
